@@ -24,6 +24,7 @@ type Program struct {
 	Funcs map[string]*ssa.Function
 	// syntax of each source function, for loop counting and positions
 	Decls map[*ssa.Function]ast.Node
+	Dir   string // the repository directory that was loaded
 }
 
 const modPath = "github.com/runreveal/pql"
@@ -65,7 +66,7 @@ func loadProgram(repo string) (*Program, error) {
 	}
 	prog, spkgs := ssautil.AllPackages(pkgs, ssa.InstantiateGenerics|ssa.GlobalDebug)
 	prog.Build()
-	P := &Program{Fset: pkgs[0].Fset, Pkgs: pkgs, Prog: prog,
+	P := &Program{Dir: repo, Fset: pkgs[0].Fset, Pkgs: pkgs, Prog: prog,
 		SSA: map[string]*ssa.Package{}, Funcs: map[string]*ssa.Function{},
 		Decls: map[*ssa.Function]ast.Node{}}
 	for i, sp := range spkgs {
